@@ -11,7 +11,7 @@ import warnings
 LEVEL = "exploration"
 RULE = ("Trees: every task tree with <= T tasks (depth <= 3, fan-out <= 2 per nursery, 0..2 nested nurseries per task) x for each "
         "task: block in the innermost nursery body or in the nursery's __aexit__ x nursery-body ending in {plain statement, "
-        "try/except, try/finally, conditional return, while loop}; generated as source, run under trio.run, observed after "
+        "try/except, try/finally, conditional return, while loop, `while True: ... break`, `try: ... return` / except}; generated as source, run under trio.run, observed after "
         "wait_all_tasks_blocked(): extract(root_task, recurse_child_tasks=True) must be isomorphic to Trio's own tree "
         "(task.child_nurseries in nesting order as contexts whose obj is the trio.Nursery; children matched to "
         "nursery.child_tasks by root identity; recursively), each task's frames a prefix of its real cr_await chain ending at a "
@@ -30,7 +30,7 @@ def bounds(tier):
     return {"max_tasks": 4 if tier == "quick" else 5, "max_hops": 3}
 
 
-ENDINGS = ["plain", "tryexc", "tryfin", "condret", "while"]
+ENDINGS = ["plain", "tryexc", "tryfin", "condret", "while", "whilebreak", "tryret"]
 
 
 # ------------------------------------------------------------------ tree shapes
@@ -118,6 +118,11 @@ def render(shape, choices):
                 body += [pad + "if rt.true:", pad + "    return 5"]
         elif ending == "while":
             body += [pad + "while rt.once():", pad + "    " + blk]
+        elif ending == "whilebreak":
+            # the only way out of the loop is the conditional break: the nursery's exit sequence is reached by a jump only
+            body += [pad + "while True:", pad + "    " + blk, pad + "    if rt.once():", pad + "        break", pad + "    rt.mark()"]
+        elif ending == "tryret":
+            body += [pad + "try:", pad + "    " + blk, pad + "    return rt.five()", pad + "except KeyError:", pad + "    pass"]
         defs.append("\n".join(body))
         return name
     root = emit_task(shape)
@@ -144,6 +149,9 @@ class Rt(object):
 
     def mark(s):
         pass
+
+    def five(s):
+        return 5
 
     def once(s):
         fr = sys._getframe(1)
@@ -335,13 +343,13 @@ def hop_cases(maxd):
                 yield {"leg": "hops", "depth": d, "leaf": leaf, "origin": origin}
 
 
-def tree_cases(max_tasks):
+def tree_cases(max_tasks, full_owners=2):
     for shape in programs(max_tasks):
         n = count_choice_tasks(shape)
         # tasks that own nurseries
         owners = count_owner(shape)
-        for combo in itertools.product(list(itertools.product(("body", "aexit"), ENDINGS)), repeat=owners) if owners <= 2 else \
-                itertools.product(list(itertools.product(("body", "aexit"), ("plain", "tryexc", "condret"))), repeat=owners):
+        for combo in itertools.product(list(itertools.product(("body", "aexit"), ENDINGS)), repeat=owners) if owners <= full_owners else \
+                itertools.product(list(itertools.product(("body", "aexit"), ("plain", "whilebreak", "tryret"))), repeat=owners):
             yield {"leg": "tree", "shape": shape, "choices": [list(c) for c in combo]}
 
 
@@ -363,7 +371,7 @@ def do_case(case):
 def run(ctx):
     b = bounds(ctx.tier)
     idx = 0
-    for case in itertools.chain(hop_cases(b["max_hops"]), tree_cases(b["max_tasks"])):
+    for case in itertools.chain(hop_cases(b["max_hops"]), tree_cases(b["max_tasks"], 1 if ctx.tier == "quick" else 2)):
         idx += 1
         if not ctx.mine(idx):
             continue
